@@ -495,23 +495,39 @@ def run(ctx, rep):
     batch = h2b.posparams[0]
     loops = [n for n in own_nodes(h2b.node) if isinstance(n, ast.For) and isinstance(n.iter, ast.Name) and n.iter.id == batch]
     probs = []
-    def u3_block(lp, v, pre):
+    def u3_block(lp, v, pre, vocab="vocab_itos", scope=None):
         probs = []
         env = dict(pre)
         inside = {}
+        LV = "len(%s)" % vocab
         for st in ast.walk(lp):
             if isinstance(st, ast.Assign) and isinstance(st.targets[0], ast.Name):
                 inside[st.targets[0].id] = st
-        for st in own_nodes(h2b.node):
-            if isinstance(st, ast.Assign) and isinstance(st.targets[0], ast.Name) and unparse(st.value) == "len(vocab_itos)":
-                env[st.targets[0].id] = {("len(vocab_itos)",): 1}
+        for st in (own_nodes(h2b.node) if scope is None else ast.walk(scope)):
+            if isinstance(st, ast.Assign) and isinstance(st.targets[0], ast.Name) and unparse(st.value) == LV:
+                env[st.targets[0].id] = {(LV,): 1}
         VL = {("len(%s)" % v,): 1}
         for nm_, st in inside.items():
             # a name bound (once, in the loop body itself) to the current vector's length
             if unparse(st.value) == "len(%s)" % v and any(st is x for x in lp.body) \
                     and sum(1 for x in ast.walk(lp) if isinstance(x, ast.Name) and x.id == nm_ and isinstance(x.ctx, ast.Store)) == 1:
                 env[nm_] = dict(VL)
-        W = {("len(vocab_itos)",): 1}
+        W = {(LV,): 1}
+        # named slice bounds: a local bound once, in the same block as (and before) the statement that uses it, to an
+        # integer expression over the names already understood
+        def stores(nm_):
+            return sum(1 for x in ast.walk(lp) if isinstance(x, ast.Name) and x.id == nm_ and isinstance(x.ctx, ast.Store))
+        for blk in [n_.body for n_ in ast.walk(lp) if isinstance(n_, ast.For)]:
+            for i_, st in enumerate(blk):
+                if isinstance(st, ast.Assign) and len(st.targets) == 1 and isinstance(st.targets[0], ast.Name) \
+                        and st.targets[0].id not in env and stores(st.targets[0].id) == 1:
+                    nm_ = st.targets[0].id
+                    uses = [x for x in ast.walk(lp) if isinstance(x, ast.Name) and x.id == nm_ and isinstance(x.ctx, ast.Load)]
+                    later = [x for st2 in blk[i_ + 1:] for x in ast.walk(st2)]
+                    if uses and all(any(u is x for x in later) for u in uses):
+                        pv = poly(st.value, env)
+                        if pv is not None and not isinstance(st.value, ast.Name):
+                            env[nm_] = pv
         # divisibility test on this vector
         tests = [n for n in ast.walk(lp) if isinstance(n, ast.If) and any(isinstance(x, ast.Raise) for x in n.body)
                  and isinstance(n.test, ast.Compare) and isinstance(n.test.left, ast.BinOp) and isinstance(n.test.left.op, ast.Mod)]
@@ -582,10 +598,16 @@ def run(ctx, rep):
                         continue
                     vpar = [g.posparams[i] for i, a_ in enumerate(c.args) if isinstance(a_, ast.Name) and a_.id == v]
                     wpar = [g.posparams[i] for i, a_ in enumerate(c.args) if poly(a_, env0) == W_]
-                    if len(vpar) == 1 and len(wpar) == 1:
-                        body = [x for x in g.node.body if not (isinstance(x, ast.Expr) and isinstance(x.value, ast.Constant))]
+                    # ... or with the vocabulary itself, whose length the helper takes
+                    qpar = [g.posparams[i] for i, a_ in enumerate(c.args) if isinstance(a_, ast.Name) and a_.id == "vocab_itos"]
+                    rebound = {x.id for x in ast.walk(g.node) if isinstance(x, ast.Name) and isinstance(x.ctx, ast.Store)}
+                    body = [x for x in g.node.body if not (isinstance(x, ast.Expr) and isinstance(x.value, ast.Constant))]
+                    if len(vpar) == 1 and vpar[0] not in rebound and len(wpar) + len(qpar) == 1 and (wpar + qpar)[0] not in rebound:
                         synth = ast.For(target=ast.Name(id=vpar[0], ctx=ast.Store()), iter=ast.Name(id=batch, ctx=ast.Load()), body=body, orelse=[])
-                        p2 = u3_block(synth, vpar[0], {wpar[0]: dict(W_)})
+                        if wpar:
+                            p2 = u3_block(synth, vpar[0], {wpar[0]: dict(W_)})
+                        else:
+                            p2 = u3_block(synth, vpar[0], {}, vocab=qpar[0], scope=g.node)
                         if not p2:
                             probs = []
     else:
